@@ -112,8 +112,58 @@ def _pred(pred, viol):
     return bool(eval(pred, {"__builtins__": {}}, env))
 
 
+def _warm_up(replay_fn, all_tasks, exclude_cfg=None):
+    """Run every distinct configuration of the check once (default answers, short horizon) in THIS process, so that
+    a failure that needs earlier instances in the same process (state shared between instances: class attributes,
+    module-level caches) can be confirmed by replay.  The reported violation is then the concrete sequence
+    'warm-up executions, then the script' of the real code."""
+    seen = set()
+    n = 0
+    for t in all_tasks or []:
+        if "cfg" not in t:
+            continue
+        key = script_hash(t["cfg"])
+        if key in seen or (exclude_cfg is not None and key == script_hash(exclude_cfg)):
+            continue
+        seen.add(key)
+        t2 = dict(t, T=min(int(t.get("T", 8)), 12))
+        for k in ("prefix", "max_exec"):
+            t2.pop(k, None)
+        try:
+            replay_fn(t2, [])
+            n += 1
+        except Exception:  # noqa
+            pass
+    return n
+
+
+def _confirm_after_warmup(prop, tier, seed, v):
+    import subprocess
+    import tempfile
+
+    rec = {"property": prop, "oracle": v["oracle"], "message": v["message"], "config": v["config"], "script": v["script"],
+           "T": v.get("T"), "details": v.get("details"), "task": v.get("task"), "needs_warmup": True, "tier": tier, "seed": int(seed)}
+    fd, path = tempfile.mkstemp(prefix="xmc_confirm_", suffix=".json")
+    try:
+        with os.fdopen(fd, "w") as f:
+            json.dump(_jsonable(rec), f)
+        for _ in range(2):
+            p = subprocess.run([sys.executable, "-W", "ignore", "-m", "xmc.cli", "replay", path], cwd=VERIF, capture_output=True,
+                               text=True, timeout=900, env=dict(os.environ, PYTHONHASHSEED="0"))
+            if p.returncode != 1 or ("oracle=%s" % v["oracle"]) not in p.stdout:
+                return False
+        return True
+    except Exception:  # noqa
+        return False
+    finally:
+        try:
+            os.unlink(path)
+        except OSError:
+            pass
+
+
 def finish(prop, tier, seed, level, stats, errors, t0, rule, assumptions, replay_fn=None, bounds=None,
-           vacuity=None, extra=None):
+           vacuity=None, extra=None, all_tasks=None):
     """Confirm violations (two replays), match known findings, write evidence, print the
     verdict lines, return the exit code."""
     os.makedirs(EVID, exist_ok=True)
@@ -141,16 +191,29 @@ def finish(prop, tier, seed, level, stats, errors, t0, rule, assumptions, replay
             groups[key] = [v, v.get("count", 1)]
         else:
             g[1] += v.get("count", 1)
+    warmed = [False]
+
+    def confirm(v):
+        ok = []
+        for _ in range(2):
+            try:
+                res = replay_fn(v["task"], v["script"])
+            except HarnessError as e:
+                res = ["HarnessError: %s" % e]
+            ok.append(any((not isinstance(r, str)) and r["oracle"] == v["oracle"] for r in res))
+        return all(ok)
+
     for v, cnt in groups.values():
         if replay_fn is not None and "task" in v:
-            ok = []
-            for _ in range(2):
-                try:
-                    res = replay_fn(v["task"], v["script"])
-                except HarnessError as e:
-                    res = ["HarnessError: %s" % e]
-                ok.append(any((not isinstance(r, str)) and r["oracle"] == v["oracle"] for r in res))
-            if not all(ok):
+            good = confirm(v)
+            if not good and all_tasks and not (extra or {}).get("flaky_is_violation"):
+                # the failure may need earlier instances in the same process: confirm it twice in a fresh process
+                # that first executes every OTHER configuration of this check once, then the script
+                good = _confirm_after_warmup(prop, tier, seed, v)
+                if good:
+                    v["message"] = "(after other instances lived in the same process: state is shared between instances) " + v["message"]
+                    v["needs_warmup"] = True
+            if not good:
                 if (extra or {}).get("flaky_is_violation") and v["oracle"].endswith(".repro"):
                     # for the reproducibility property a failure that does not reproduce IS the failure
                     v = dict(v, message="(not reproducible on replay) " + v["message"])
@@ -165,8 +228,9 @@ def finish(prop, tier, seed, level, stats, errors, t0, rule, assumptions, replay
         else:
             new_viol.append(v)
     if flaky:
-        print("HARNESS-ERROR property=%s flaky failure (did not reproduce on replay): %s" % (prop, flaky[0]["message"]))
-        exit_code = 2
+        print("HARNESS-ERROR property=%s flaky failure (did not reproduce on replay): %s" % (prop, flaky[0]["message"][:300]))
+        if not new_viol:
+            exit_code = 2
     for kid, (kf, n) in sorted(known_hit.items()):
         print("KNOWN-FINDING: property=%s %s [%s] (%d executions)" % (prop, kf["what"], kid, n))
     seen_keys = set()
@@ -178,7 +242,8 @@ def finish(prop, tier, seed, level, stats, errors, t0, rule, assumptions, replay
         h = script_hash([v["config"], v["script"], v["oracle"]])
         path = os.path.join(REPLAYS, "%s-%s.json" % (prop, h))
         rec = {"property": prop, "oracle": v["oracle"], "message": v["message"], "config": v["config"],
-               "script": v["script"], "T": v.get("T"), "details": v.get("details"), "task": v.get("task")}
+               "script": v["script"], "T": v.get("T"), "details": v.get("details"), "task": v.get("task"),
+               "needs_warmup": bool(v.get("needs_warmup")), "tier": tier, "seed": int(seed)}
         with open(path, "w") as f:
             json.dump(_jsonable(rec), f, indent=1)
         print("VIOLATION property=%s replay=%s" % (prop, path))
